@@ -123,7 +123,7 @@ def gen_sum(rng, n, tier):
                     if rng.random() < 0.3:
                         pnt[2] = float(nodata)
         out.append({'tracks': tracks, 'nodata': nodata, 'res': [rng.choice([0.5, 1, 2, 3]), rng.choice([0.5, 1, 2, 3])], 'margin': rng.choice([0.0, 0.0, 0.25, 0.5]),
-                    'order': rng.sample(OPS, len(OPS)), 'layout': rng.choice([None, None, [False, True], [True, False, True]])})
+                    'order': rng.sample(OPS, len(OPS)), 'layout': rng.choice([None, None, [False, True], [True, False, True]]), 'again': rng.choice([None, None, None, 'same', 'other'])})
     return out
 
 
@@ -145,6 +145,14 @@ def run_sum(case):
     col = TrackCollection(trs)
     ops = [getattr(U, o) for o in case.get('order', OPS)]          # the aggregates are computed in the order they are asked for: every order must give the same maps
     r = sm.summarize(col, ['f'] * len(ops), ops, resolution=tuple(case['res']), margin=case['margin'], verbose=False)
+    if case.get('again'):
+        # the raster is used again: the same collection is summarised on it a second time, or another collection (other values at some of the same places) in between;
+        # the maps describe the collection added last
+        if case['again'] == 'other':
+            t2 = Track([Obs(ENUCoords(x, y, 0), ObsTime.readUnixTime(i)) for i, (x, y, v) in enumerate(case['tracks'][0])])
+            t2.createAnalyticalFeature('f', [100.0 + i for i in range(t2.size())])
+            r.addCollectionToRaster(TrackCollection([t2])); r.computeAggregates()
+        r.addCollectionToRaster(col); r.computeAggregates()
     grids = {}
     for o in OPS:
         g = r.getAFMap('f#' + o).grid
